@@ -19,7 +19,7 @@ Theorem C10_relayed_is_authentic_fresh_and_not_echoed :
   forall c now nts inv known0 es, all_steps_ok c (init_state c now nts inv known0) es.
 Proof.
   exact (fun c now nts inv known0 es =>
-    run_10 c es _ (init_state_inv10 c now nts inv known0) (init_state_inv13 c now nts inv known0)).
+    run_10 es c _ (init_state_inv10 c now nts inv known0) (init_state_inv13 c now nts inv known0)).
 Qed.
 
 (* the invariant behind it holds in every reachable state: every stored
